@@ -2,15 +2,18 @@
 import json
 import subprocess
 import vlib
+from placerepl import repl_tie
 
 META = {
     "id": "C26",
     "engine": "place",
     "design_ref": "5/C26",
-    "coq_targets": ["Props/Properties_C26.vo", "Place/PolicerCheck.vo"],
-    "coq_files": ["Place/Policer.v", "Place/PolicerProofs.v", "Place/PolicerCheck.v", "Props/Properties_C26.v"],
+    "coq_targets": ["Props/Properties_C26.vo", "Place/PolicerCheck.vo", "Place/ReplCheck.vo"],
+    "coq_files": ["Place/Policer.v", "Place/PolicerProofs.v", "Place/PolicerCheck.v", "Place/Repl.v", "Place/ReplProofs.v",
+                  "Place/ReplCheck.v", "Props/Properties_C26.v"],
     "theorems": ["C26_drop_safe", "C26_outside_drop_safe", "C26_lock_link_never_dropped", "C26_ec_drop_safe",
-                 "C26_default_deletions_classified", "C26_replicator_bounded", "C26_unrepaired_refuted"],
+                 "C26_default_deletions_classified", "C26_replicator_bounded", "C26_replicator_bounded_any",
+                 "C26_unrepaired_refuted"],
     "technique": "Coq proof (loop invariants by induction over node lists and rule lists) about a Gallina transcription of "
                  "processObject/processNodes/processECPartByRule/HandleTask + differential check of the transcription against the "
                  "real Policer and Replicator over fakes",
@@ -132,10 +135,10 @@ def classify(c):
 
 def run(ctx):
     ctx.prove()
-    model = ctx.model_ready(["Place/PolicerCheck.vo"])
+    model = ctx.model_ready(["Place/PolicerCheck.vo", "Place/ReplCheck.vo"])
     binp = ctx.go_build()
-    if ctx.replay:
-        rp = json.load(open(ctx.replay))
+    rp = json.load(open(ctx.replay)) if ctx.replay else None
+    if rp is not None:
         src = [v["case"] for v in rp.get("violations", []) if "case" in v]
         cases = rerun(ctx, binp, src)
     else:
@@ -143,6 +146,8 @@ def run(ctx):
     if not model:
         ctx.tie(False)
         return
+    # the replicator on directly given tasks (object carried, local node among the targets)
+    repl_tie(ctx, binp, None if rp is None else [v["repl_case"] for v in rp.get("violations", []) if "repl_case" in v])
     res = evaluate(ctx, cases)
     if res is None:
         ctx.tie(False)
